@@ -231,6 +231,9 @@ func (r *reader) item(depth int) (*Node, error) {
 
 // AppendHead appends a head with the given width (0 = shortest).
 func AppendHead(dst []byte, major byte, arg uint64, width int) []byte {
+	if major != Prim {
+		width = FitWidth(arg, width) // a chosen width that cannot hold arg falls back to the shortest
+	}
 	if width == 0 {
 		switch {
 		case arg < 24:
